@@ -172,11 +172,23 @@ def radix_parser_role(facts, f):
     return out
 
 
+def trimmer_role(facts, f):
+    """Hand-written trimming helpers: private `&str → &str` functions with loops that the conversion calls.  They are
+    not inlined into the conversion's view (its decision paths are read with the helper's result as the trimmed text)."""
+    out = []
+    for k in sorted(facts.reach([f.key])):
+        it = facts.items.get(k, {})
+        b = facts.body(k)
+        if k != f.key and b is not None and b.kind == "fn" and it.get("inputs") == ["&str"] and it.get("output") == "&str" and b.back_edges():
+            out.append(k)
+    return out
+
+
 def conversion_view(facts, f):
     """The conversion with its private helpers (other than the digit parser) inlined at their call sites
     (rules/inline.py): splitting the conversion into helpers changes neither what it computes nor this view."""
     from . import inline
-    stop = set(radix_parser_role(facts, f))
+    stop = set(radix_parser_role(facts, f)) | set(trimmer_role(facts, f))
     try:
         cands = set(inline.candidates(facts.path))
     except Exception:
@@ -207,6 +219,23 @@ def conversion_view(facts, f):
         return facts, f
     fv = v.body(f.key)
     return (v, fv) if fv is not None else (facts, f)
+
+
+def whitespace_set(ctx, facts, pred, clause, cfg):
+    """The set a white-space predicate accepts = ECMAScript WhiteSpace ∪ LineTerminator."""
+    cs = table_charset(facts, pred)
+    if cs is None:
+        cs = charset_of(pred)
+    if isinstance(cs, tuple) and cs and cs[0] == "calls":
+        if re.search(r"^std::char::methods::<impl char>::is_\w+$", cs[1]):
+            ctx.fail(clause + ".whitespace-set", "delegates to %s" % cs[1], "the white-space predicate delegates to %s — not the ECMAScript StrWhiteSpaceChar set (e.g. char::is_whitespace also accepts U+0085 and rejects U+FEFF)" % cs[1], where=pred.where(), fn=pred.key)
+        else:
+            ctx.unread(clause + ".whitespace-set", "predicate (%s)" % cfg, "the white-space predicate is neither a comparison chain nor a scan of a constant table (it calls %s): the set it accepts is not read" % cs[1], where=pred.where(), fn=pred.key)
+    else:
+        want = iv_norm(ES_WS)
+        ctx.check(cs == want, clause + ".whitespace-set", "trimmed characters = ECMAScript WhiteSpace ∪ LineTerminator (%s)" % cfg,
+                  "the white-space predicate accepts {%s}; ECMAScript's set is {%s}" % (fmt_set(cs), fmt_set(want)), where=pred.where(), fn=pred.key, nontrivial=True,
+                  sample={"accepted": fmt_set(cs)})
 
 
 def check(ctx, facts, cfg, clause="A3"):
@@ -262,7 +291,34 @@ def check(ctx, facts, cfg, clause="A3"):
                   "characters admitted to the float parser: %s (expected digits and + - . e E)" % "".join(sorted(alphabet - want)) if alphabet else "?", where=loc, fn=f.key, nontrivial=True, sample={"alphabet": "".join(sorted(alphabet))})
     # ---- trimming with the ES white-space set
     trims = [(bi, t) for bi, t in f.calls() if (callee_path(t) or "").startswith("core::str::<impl str>::trim")]
-    ctx.check(len(trims) == 1, clause + ".trim", "surrounding white space is trimmed once (%s)" % cfg, "%d trim calls" % len(trims), where=loc, fn=f.key)
+    trimmers = set(trimmer_role(facts, f))
+    own = [(bi, t) for bi, t in f.calls() if callee_of(t) and callee_of(t).get("key") in trimmers]
+    if own and not trims:
+        # a hand-written trimming loop: which characters it removes is read (the predicates it applies to the
+        # characters it takes off either end); that it removes exactly the longest prefix and suffix is not
+        for bi, t in own[:1]:
+            tb = facts.body(callee_of(t)["key"])
+            preds = {}
+            for bi2, t2 in tb.calls():
+                c2 = callee_of(t2)
+                if c2 and c2.get("local") and facts.items.get(c2.get("key"), {}).get("inputs") == ["char"] and facts.items[c2["key"]].get("output") == "bool":
+                    preds[c2["key"]] = facts.body(c2["key"])
+            for bi2, t2 in tb.calls():
+                p2 = callee_path(t2) or ""
+                if re.search(r"^std::char::methods::<impl char>::is_(whitespace|ascii_whitespace|control|alphabetic|numeric)$", p2):
+                    ctx.fail(clause + ".whitespace-set", "delegates to %s" % p2, "the trimming helper classifies characters with %s — not the ECMAScript StrWhiteSpaceChar set" % p2, where=tb.where(bi2), fn=tb.key)
+                if p2.startswith("core::str::<impl str>::trim"):
+                    ctx.fail(clause + ".whitespace-set", "uses %s" % p2.rsplit("::", 1)[1], "white space is trimmed with %s, not the ECMAScript StrWhiteSpaceChar set" % p2, where=tb.where(bi2), fn=tb.key)
+            for pk, pred in sorted(preds.items()):
+                whitespace_set(ctx, facts, pred, clause, cfg)
+            if not preds:
+                ctx.unread(clause + ".whitespace-set", "predicate (%s)" % cfg, "the trimming helper %s applies no character predicate of this crate: the set it removes is not read" % tb.key.split("::", 1)[1], where=tb.where(), fn=tb.key)
+            ctx.unread(clause + ".trim", "trimming helper (%s)" % cfg, "white space is removed by the hand-written loop(s) of %s: that exactly the longest prefix and suffix of white space are removed is not read" % tb.key.split("::", 1)[1], where=tb.where(), fn=tb.key)
+    elif not trims and f.back_edges():
+        # (a view with a trimming helper inlined: the loops are in the conversion itself)
+        ctx.unread(clause + ".trim", "trimming (%s)" % cfg, "the conversion calls no trimming function and has loops of its own: whether they trim the white space is not read", where=loc, fn=f.key)
+    else:
+        ctx.check(len(trims) == 1, clause + ".trim", "surrounding white space is trimmed once (%s)" % cfg, "%d trim calls" % len(trims), where=loc, fn=f.key)
     for bi, t in trims:
         p = callee_path(t)
         if p == "core::str::<impl str>::trim_matches" and len(t["args"]) == 2:
@@ -278,19 +334,7 @@ def check(ctx, facts, cfg, clause="A3"):
                 if e[0] == "agg" and e[1].get("agg") == "Closure":
                     pred = facts.body(e[1]["closure"])
             if pred is not None:
-                cs = table_charset(facts, pred)
-                if cs is None:
-                    cs = charset_of(pred)
-                if isinstance(cs, tuple) and cs and cs[0] == "calls":
-                    if re.search(r"^std::char::methods::<impl char>::is_\w+$", cs[1]):
-                        ctx.fail(clause + ".whitespace-set", "delegates to %s" % cs[1], "the white-space predicate delegates to %s — not the ECMAScript StrWhiteSpaceChar set (e.g. char::is_whitespace also accepts U+0085 and rejects U+FEFF)" % cs[1], where=pred.where(), fn=pred.key)
-                    else:
-                        ctx.unread(clause + ".whitespace-set", "predicate (%s)" % cfg, "the white-space predicate is neither a comparison chain nor a scan of a constant table (it calls %s): the set it accepts is not read" % cs[1], where=pred.where(), fn=pred.key)
-                else:
-                    want = iv_norm(ES_WS)
-                    ctx.check(cs == want, clause + ".whitespace-set", "trimmed characters = ECMAScript WhiteSpace ∪ LineTerminator (%s)" % cfg,
-                              "the white-space predicate accepts {%s}; ECMAScript's set is {%s}" % (fmt_set(cs), fmt_set(want)), where=pred.where(), fn=pred.key, nontrivial=True,
-                              sample={"accepted": fmt_set(cs)})
+                whitespace_set(ctx, facts, pred, clause, cfg)
         else:
             ctx.fail(clause + ".whitespace-set", "uses %s" % p.rsplit("::", 1)[1], "white space is trimmed with %s (Unicode White_Space), not the ECMAScript StrWhiteSpaceChar set" % p, where=f.where(bi), fn=f.key)
     # ---- decided on the path summaries of the conversion (helpers inlined): which strings are answered directly
@@ -299,7 +343,7 @@ def check(ctx, facts, cfg, clause="A3"):
         for cl_, what in ((".empty-is-zero", "empty string"), (".infinity", "Infinity spellings"), (".radix-prefixes", "radix prefixes")):
             ctx.unread(clause + cl_, "%s (%s)" % (what, cfg), "the conversion has loops or too many paths to summarise", where=loc, fn=f.key)
         return f0
-    is_trim = lambda y: y[0] == "call" and y[1] and (y[1].get("path") or "").startswith("core::str::<impl str>::trim")
+    is_trim = lambda y: y[0] == "call" and y[1] and ((y[1].get("path") or "").startswith("core::str::<impl str>::trim") or y[1].get("key") in trimmers)
 
     def str_test(key, ex):
         """("empty",) / ("eq", constant) when the atom tests the trimmed string for emptiness / equality with a constant."""
